@@ -123,6 +123,12 @@ func canonParse(ctx *core.Ctx, p url.Parser, in string) (string, bool, *core.Pan
 func (c17) Exec(ctx *core.Ctx, cs *core.Case) {
 	p := buildParser(cs.Config)
 	in := string(cs.Input)
+	switch len(in) % 6 {
+	case 1:
+		interfere(ctx, in) // other parser values have seen this input before (cross-parser caches)
+	case 2:
+		sameParserHistory(ctx, p, in)
+	}
 	s1, ok1, pan := canonParse(ctx, p, in)
 	if pan != nil {
 		ctx.Count("panic(C02)")
